@@ -4,6 +4,7 @@ import itertools
 from tverif.engine import contract, snapshot
 from tverif.ring import Poly
 
+TT = "tangelo/linq/translator/translate_circuit.py"
 TI = "tangelo/linq/translator/translate_json_ionq.py"
 TP = "tangelo/linq/translator/translate_projectq.py"
 TC = "tangelo/linq/translator/translate_circuit.py"
@@ -86,6 +87,15 @@ def o1(h, st):
     h.check("same number of gates", len(c2._gates) == len(c._gates))
     h.check("same gates", all(same_gate(h, a, b) for a, b in zip(c._gates, c2._gates)), detail=str(c2._gates)[:200])
     h.check("same width", h.getattr(c2, "width") == h.getattr(c, "width"), detail=f"{h.getattr(c2, 'width')} vs {h.getattr(c, 'width')}")
+    # the same round trip through the FRONT END translate_circuit (target / source names in any letter case; source == target returns the circuit itself)
+    js2 = h.call(TT, "translate_circuit", c, "IonQ")
+    c3 = h.call(TT, "translate_circuit", js2, "tangelo", "ionq")
+    h.check("front end: same gates after translate_circuit(.., 'ionq') and back", len(c3._gates) == len(c._gates) and all(same_gate(h, a, b) for a, b in zip(c._gates, c3._gates)),
+            detail=str(c3._gates)[:200])
+    h.check("front end: source == target hands the circuit back", h.call(TT, "translate_circuit", c, "tangelo") is c)
+    e = h.raises(lambda: h.call(TT, "translate_circuit", c, "no-such-format"), NotImplementedError)
+    h.check("front end: unknown target refused", e is not None)
+    h.check("source circuit unchanged by the front end", snapshot(c.__dict__) == before)
     h.done()
 
 
